@@ -52,6 +52,10 @@ func (x *Exec) native(st *State, fr *Frame, callee *ssa.Function, key string, ar
 		name := st.define("err", "Iface", "(mk-iface "+itoa(id)+" "+r+")")
 		return Val{T: rt, S: name, Sort: "Iface"}
 	}
+	if callee.Name() == "init" && callee.Signature.Recv() == nil && callee.Signature.Params().Len() == 0 {
+		k(st, voidVal()) // initialisers of imported packages: outside the verified state
+		return true
+	}
 	switch key {
 	case "(*sync.Mutex).Lock", "(*sync.RWMutex).Lock", "(*sync.RWMutex).RLock":
 		x.lockOp(st, argv[0], true, pos)
@@ -106,6 +110,22 @@ func (x *Exec) native(st *State, fr *Frame, callee *ssa.Function, key string, ar
 		k(st, nonNilErr())
 		return true
 	case "fmt.Sprintf", "fmt.Sprint", "fmt.Sprintln":
+		// fmt.Sprintf("%0x", bytes): the lower-case hex rendering of the byte slice (uninterpreted function hexstr)
+		if key == "fmt.Sprintf" && (argv[0].S == sStr("%0x") || argv[0].S == sStr("%x")) && len(argv) == 2 && argv[1].Sort == "Slice" {
+			var et types.Type = types.NewInterfaceType(nil, nil)
+			if sl, ok := argv[1].T.Underlying().(*types.Slice); ok {
+				et = sl.Elem()
+			}
+			arr, idx := "(sarr "+argv[1].S+")", "(+ (soff "+argv[1].S+") 0)"
+			if sd, ok := st.last["slice@"+argv[1].S]; ok && sd.Sort == "0" {
+				arr, idx = sd.S, "0" // the variadic argument slice is a[:] of a known array
+			}
+			el := st.load(st.elemAddrOf(arr, idx, et), et)
+			if c, ok := st.conc[el.S]; ok && c.Sort == "Slice" {
+				k(st, Val{T: rt, S: x.hexOf(st, c), Sort: "String"})
+				return true
+			}
+		}
 		k(st, freshRet("str"))
 		return true
 	case "strings.Contains":
@@ -186,4 +206,11 @@ func (x *Exec) lockOp(st *State, m Val, acquire bool, pos token.Pos) {
 		}
 		st.lockLog = append(st.lockLog, "unlock "+key)
 	}
+}
+
+// hexOf is the uninterpreted hex rendering of a byte slice's contents.
+func (x *Exec) hexOf(st *State, sl Val) string {
+	x.w.declUF("hexstr", "(declare-fun hexstr ((Array Int Int) Int Int) String)")
+	cls := st.elemClass(types.Typ[types.Uint8])
+	return "(hexstr (select " + st.hget(cls) + " (sarr " + sl.S + ")) (soff " + sl.S + ") (slen " + sl.S + "))"
 }
